@@ -152,6 +152,25 @@ def run_tlc(module: str, cfg: str, *, workdir: Path, env: dict | None = None, wo
     return res
 
 
+def run_apalache(module: str, workdir: Path, args: list[str], include=None, timeout: int = 300):
+    """apalache-mc check ... ; returns (ok, output). The module and generated includes are copied into workdir."""
+    workdir.mkdir(parents=True, exist_ok=True)
+    shutil.copy(SPEC / f"{module}.tla", workdir / f"{module}.tla")
+    for f in include or []:
+        shutil.copy(f, workdir / Path(f).name)
+    cmd = ["apalache-mc", "check", f"--out-dir={workdir / 'out'}"] + args + [f"{module}.tla"]
+    try:
+        p = subprocess.run(cmd, cwd=workdir, capture_output=True, text=True, timeout=timeout)
+    except (subprocess.TimeoutExpired, FileNotFoundError) as exc:
+        raise MachineryFailure(f"apalache failed to run: {exc!r}") from exc
+    out = p.stdout + p.stderr
+    if "The outcome is: NoError" in out:
+        return True, out
+    if "The outcome is: Error" in out or "Found a violation" in out or "invariant" in out.lower() and "violat" in out.lower():
+        return False, out
+    raise MachineryFailure("apalache: " + "\n".join(out.splitlines()[-15:]))
+
+
 def load_findings():
     f = VERIF / "known_findings.json"
     if not f.exists():
